@@ -117,6 +117,9 @@ def handle (args : List String) : Verdict :=
   match args with
   | "mic" :: r => handleMic true r
   | "gmic" :: r => handleMic false r
+  -- the same quantities through the bead-index route `Topology::getDist(i, j)` (what IBond / IAngle / IDihedral call)
+  | "micb" :: r => let v := handleMic true r; { v with tag := v.tag ++ ":by-bead-index" }
+  | "gmicb" :: r => let v := handleMic false r; { v with tag := v.tag ++ ":by-bead-index" }
   | _ => bad "unknown op"
 
 end Driver.C02
